@@ -11,7 +11,7 @@ from vf.zoo import unit, vec
 
 ID = "C08"
 LEVEL = "exploration"
-BUDGET = {"quick": 19200, "thorough": 192000}
+BUDGET = {"quick": 38400, "thorough": 384000}
 RULE = (
     "Hypothesis draws any of the 10 system classes (constant metrics of all 14 types incl. low-rank down-dates and "
     "block metrics; scalar/diagonal/Cholesky/dense/SoftAbs position-dependent metrics; constrained variants), a "
